@@ -14,7 +14,7 @@ RULE = ("Enumeration over every key of the generator registry (71 runnable names
         "definition (exact for integer-valued results, 1e-9*scale slack otherwise - independent of the library's predicate); "
         "additionally monotone non-increasing for the XOS / XS / OXS / K-budget / coverage families; two identically seeded calls (with "
         "unrelated calls for other player counts in between, and compared with a pristine forked process that never generated anything) return identical arrays except for the documented exceptions (graph-weight-distribution family, round-robin factory). "
-        "Non-trivial: a game with >= 3 distinct values; distinct = (name, n, seed).")
+        "One shard reaches the generators through ModelInstance (what --game-generator / --seed build): two identically seeded instances and the direct registry call give the same game sequence (seeds 0, 1, 2^32-1, 2^32 and drawn). Non-trivial: a game with >= 3 distinct values; distinct = (name, n, seed).")
 LEVEL_TEXT = ("The registry and the player-count range are enumerated completely, seeds are generated; class membership is decided by "
               "textbook predicates in exact arithmetic. A for-all over seeds is explored, not proved.")
 LEVEL_NOTE = "Trusted: vp/oracles.py predicates; the pristine-process helper (os.fork before any generator call). n in 3..6 quick (7, 8 thorough; oxs / coverage are exponential in n and capped at 6 / 7)."
